@@ -117,7 +117,7 @@ def solve_one(ob, timeout_ms=10000, use_cvc5=True, cross=False, finite=True, ski
     if prefer_cvc5 and not skip_short:
         # this obligation was last discharged by cvc5 (baseline hint): ask it first
         textp = to_smt2(ob.assumptions, ob.goal)
-        outp, dtp = run_cli([CVC5, "--strings-exp", "--tlimit=%d" % max(early_cvc5_ms, 6000)], textp, max(early_cvc5_ms, 6000) / 1000)
+        outp, dtp = run_cli([CVC5, "--strings-exp", "--tlimit=%d" % max(early_cvc5_ms, 20000)], textp, max(early_cvc5_ms, 20000) / 1000)
         ob.time = getattr(ob, "time", 0.0) + dtp
         if outp == "unsat":
             ob.verdict = "discharged"
